@@ -11,7 +11,7 @@ from .core import AnchorError, Unsupported
 from .e1_srcmodel import dotted, walk_no_nested
 from .e2_eval import is_unknown
 from .sem import split_call, place
-from .c18_fold import Folder, FoldRaise
+from .c18_fold import Folder, FoldRaise, raw_module, raw_func
 from .c18_sem import (explore, app, head, same, vkey, unfn_m, strip, find, walk, contains, const_of, sym_of, norm_atom, depends_on_sym, is_empty,
                       is_boolean)
 
@@ -44,7 +44,7 @@ def mask_table(ctx):
     the function, module-level table, loop / reduce over a data table, private helpers); see c18_fold.py.  Folded once per run."""
     hit = getattr(ctx, "_c18_masks", None)
     if hit is None:
-        fn = ctx.src.func(N2P, "mkusetmask")
+        fn = raw_func(ctx, N2P, "mkusetmask")
         fo = Folder(ctx, N2P)
         try:
             try:
@@ -190,7 +190,7 @@ def r1_lattice(ctx):
                   None if ok else {"mask": _bitsof(u)})
         seen |= u
     # 5. a set name gives the table entry; an 'x+y' request gives the OR of the masks of the named sets.  Decided on the values mkusetmask
-    # returns (every name, every pair of names, some longer requests) - a loop with |=, reduce(or_), a helper are all the same to this check
+    # returns (every name; every name combined with its neighbour and with two supersets; some longer requests) - a loop with |=, reduce(or_), a helper are all the same to this check
     bad = {}
     for x in table:
         st, v = mask_of(ctx, x)
@@ -198,8 +198,11 @@ def r1_lattice(ctx):
             bad[x] = {"mkusetmask(name)": v if st == "ok" else f"{st}: {v}", "mkusetmask()[name]": table[x]}
     ctx.check(not bad, "mkusetmask(name) is the table entry mkusetmask()[name] for every set name", fn, dict(list(bad.items())[:4]) or None)
     names = sorted(table)
-    reqs = [(x, y) for i, x in enumerate(names) for y in names[i + 1:]] + [(y, x) for x, y in zip(names, names[1:])]
+    # every name with its neighbour (both orders) and with two supersets it shares bits with or not; some longer requests
+    reqs = [(x, y) for x, y in zip(names, names[1:] + names[:1])] + [(y, x) for x, y in zip(names, names[1:] + names[:1])]
+    reqs += [(x, y) for x in names for y in ("a", "n") if y in table and x != y]
     reqs += [("a", "o", "m"), ("b", "b"), ("l", "t", "q", "e"), ("u1", "p", "s")]
+    reqs = [r for r in reqs if all(x in table for x in r)]
     bad, odd = [], []
     for r in reqs:
         want = 0
@@ -270,6 +273,61 @@ def _member_wrong(v):
     return None
 
 
+def _mentions(c, node, name):
+    if c is not None:
+        return depends_on_sym(c, name)
+    return node is not None and any(isinstance(n, ast.Name) and n.id == name for n in ast.walk(node))
+
+
+def _flag(p, name):
+    """truth of the boolean parameter `name` on path p: True / False, None when no test of the path looks at it, "odd" when a test does in a
+    form this rule does not know (known: the flag itself, `not`, bool(flag), flag is / == True / False)"""
+    raw = F.sym(name)
+    out = None
+    for c, d, node in p.atoms():
+        if not _mentions(c, node, name):
+            continue
+        got = None
+        if c is not None and same(c, raw):
+            got = d
+        b = _is_call(c, ("bool",), ["x"]) if c is not None else None
+        if b and same(b.get("x"), raw):
+            got = d
+        for op in ("cmp:Is", "cmp:Eq"):
+            a = app(c, op) if c is not None else None
+            if a and len(a) == 2:
+                for x, z in ((a[0], a[1]), (a[1], a[0])):
+                    if same(x, raw) and sym_of(z) in ("True", "False"):
+                        got = d if sym_of(z) == "True" else (not d)
+        if got is None:
+            return "odd"
+        out = got
+    return out
+
+
+def _is_literal(p, name, lit):
+    """truth of `name == lit` (lit: the repr of a string literal) on path p: True / False / None (not tested) / "odd" (name is tested in a form
+    this rule does not know; known: ==, !=, in / not in a one-element tuple)"""
+    raw, val = F.sym(name), F.sym(lit)
+    out = None
+    for c, d, node in p.atoms():
+        if not _mentions(c, node, name):
+            continue
+        got = None
+        a = app(c, "cmp:Eq") if c is not None else None
+        if a and len(a) == 2 and ((same(a[0], raw) and same(a[1], val)) or (same(a[1], raw) and same(a[0], val))):
+            got = d
+        a = app(c, "cmp:In") if c is not None else None
+        if a and len(a) == 2 and same(a[0], raw) and app(a[1], "tuple") and len(app(a[1], "tuple")) == 1 and same(app(a[1], "tuple")[0], val):
+            got = d
+        if got is None:
+            if c is not None and _is_call(c, ("isinstance",), ["obj", "cls"]) is not None:
+                continue            # a type test says nothing about the value
+            return "odd"
+        out = got
+    return out
+
+
 def _first(paths, pred):
     for p in paths:
         if pred(p):
@@ -321,15 +379,29 @@ def r1b_producer(ctx):
         ctx.error("_rdop2uset: store into the USET words not recognised as `words[sel] & ~bit`", odd[0].ret_node, _show(odd[0].ret))
         return
     sel_ok = bool(found)
+    sel_odd = None
     for p, U, M, cleared in found:
         m = _member(M)
-        good = False
+        good, known = False, False
         if m:
             for w, k in ((m[0], m[1]), (m[1], m[0])):
                 c = _is_call(k, ("mkusetmask",), ["nasset"])
-                if c is not None and same(w, U) and sym_of(c.get("nasset")) == "'s'":
-                    good = True
+                name = sym_of(c.get("nasset")) if c is not None else None
+                i = app(k, "idx")           # mkusetmask()['s']
+                if i and _is_call(i[0], ("mkusetmask",), ["nasset"]) is not None and not _is_call(i[0], ("mkusetmask",), ["nasset"]):
+                    name = sym_of(i[1])
+                if name is not None and name.startswith("'") and same(w, U):
+                    known = True
+                    good = name == "'s'"
+        elif _member_wrong(M):
+            known = True
+        if not known:
+            sel_odd = sel_odd or M          # selected in a way the rule does not know: nothing provable
         sel_ok = sel_ok and good
+    if not sel_ok and sel_odd is not None:
+        ctx.error("_rdop2uset: how the DOF whose S bit is cleared are selected is not recognised (rule knows (words & mkusetmask('s')) != 0)", fn,
+                  _show(sel_odd))
+        return
     if not ctx.check(sel_ok, "_rdop2uset selects the s-set DOF with mkusetmask('s')", fn,
                      None if sel_ok else [_show(f[2]) for f in found] or "no store into the USET words"):
         return
@@ -493,19 +565,35 @@ def r2_mksetpv(ctx):
     for nm, k in ((major, 2), (minor, 1)):
         if not ok:
             break
-        good, why = True, None
+        good, why, odd = True, None, None
         for t in roles:
             p, r = t[0], t[k]
             isstr = None
-            for c, d, _ in p.atoms():
+            for c, d, node in p.atoms():
+                if not _mentions(c, node, nm) or (c is not None and (contains(c, t[1][1]) if t[1] else False)):
+                    continue            # tests on the membership vectors are not tests of the argument's type
                 ic = _is_call(c, ("isinstance",), ["obj", "cls"]) if c is not None else None
-                if ic and same(ic.get("obj"), F.sym(nm)) and sym_of(ic.get("cls")) == "str":
-                    isstr = d
+                cls = None
+                if ic and same(ic.get("obj"), F.sym(nm)):
+                    cs = app(ic.get("cls"), "tuple") or [ic.get("cls")]
+                    names = {sym_of(x) for x in cs}
+                    cls = "str" if names == {"str"} else ("int" if names and names <= _INT_TYPES else None)
+                if cls is None:
+                    b = app(c, "mask:BitAnd") if c is not None else None
+                    if b:
+                        continue        # the mask-level shortcut `minor & ~major` is judged with the refusal
+                    odd = (p, node)
+                else:
+                    isstr = d if cls == "str" else (not d)     # the argument is a set name or an integer mask
             want = {True: "resolved", False: "raw"}.get(isstr)
             if want is None or r[0] != want:
                 good = False
                 why = {"regime": p.describe(), "mask used": _show(r[2])}
-        ctx.check(good, f"mksetpv resolves a string `{nm}` through mkusetmask", fn, why)
+        if odd is not None and not good:
+            ctx.error(f"mksetpv: a test on `{nm}` is not recognised (rule knows isinstance(.., str) and isinstance(.., int / np.integer))", odd[1],
+                      {"regime": odd[0].describe()})
+        else:
+            ctx.check(good, f"mksetpv resolves a string `{nm}` through mkusetmask", fn, why)
     # refusal: every regime in which some DOF is in minor but not in major ends in the raise.  A test any(f(pvminor, pvmajor)) /
     # all(f(...)) is decided by the truth table of f over (in minor, in major): it is the containment test iff f == minor and not major
     refusal_ok, detail, undecidable = True, None, None
@@ -572,6 +660,7 @@ def r2_mksetpv(ctx):
               None if ok else {"returned": _show(bad[0].ret), "regime": bad[0].describe()})
 
 
+_INT_TYPES = {"int", "np.integer", "numbers.Integral", "np.int64", "np.int32", "np.uint32", "np.uint64", "np.signedinteger", "np.unsignedinteger", "Integral"}
 _BOOL_CMP = {"Gt": lambda x, y: x and not y, "Lt": lambda x, y: y and not x, "GtE": lambda x, y: x or not y, "LtE": lambda x, y: y or not x,
              "Eq": lambda x, y: x == y, "NotEq": lambda x, y: x != y}
 
@@ -589,6 +678,13 @@ def _truth_table(v, A, B, red="any"):
             return None
         nm, args = u
         if nm == "astype" and len(args) == 2 and sym_of(args[1]) in ("bool", "np.bool_"):
+            return ev(args[0], a, b)
+        if nm == "upd" and len(args) == 3 and sym_of(args[2]) in ("True", "False"):
+            x, m = ev(args[0], a, b), ev(args[1], a, b)         # X[mask] = False  is  X & ~mask;  X[mask] = True  is  X | mask
+            if x is None or m is None:
+                return None
+            return (x or m) if sym_of(args[2]) == "True" else (x and not m)
+        if nm in ("call:.copy", "call:np.copy") and len(args) == 1:
             return ev(args[0], a, b)
         vals = [ev(y, a, b) for y in args if not isinstance(y, str)]
         if any(t is None for t in vals):
@@ -885,7 +981,7 @@ def r3_checked_lookup(ctx):
     # (wherever it sits: in the anchored function or in a helper it calls)
     others = []
     for rel in (N2P, LOCATE):
-        m = ctx.src.mod(rel)
+        m = raw_module(ctx, rel)
         for q, f in m.funcs.items():
             for c in _searchsorted_sites(f):
                 kw = {k.arg for k in c.keywords}
@@ -942,7 +1038,12 @@ def _r3_mkdofpv(ctx):
             return "misfiltered"
         return "unknown"
 
-    outs = [(p, L, D, outcome(p, L, D), _anymis(p, L), p.decided(strict)) for p, L, D in rows]
+    outs = [(p, L, D, outcome(p, L, D), _anymis(p, L), _flag(p, "strict")) for p, L, D in rows]
+    unk = _first(outs, lambda t: t[5] == "odd")
+    if unk is not None:
+        ctx.error("mkdofpv: a test on `strict` is not recognised (rule knows the flag itself, not, bool(), is / == True / False)", fn,
+                  {"regime": unk[0].describe()})
+        return bound
     unk = _first(outs, lambda t: t[3] == "unknown")
     if unk is not None:
         ctx.error("mkdofpv: value returned after the look-up not recognised", unk[0].ret_node, {"regime": unk[0].describe(), "returned": _show(unk[0].ret)})
@@ -983,7 +1084,10 @@ def _r3_mkdofpv(ctx):
             if not good and kN is not None and mult(H, U) is None:
                 enc_odd = enc_odd or "table keys: " + _show(H)
             # a plain array table has no set information: its rows are the p-set, any other request is refused
-            if not (same(U, uset) and p.decided(F.fn("cmp:Eq", F.sym(nasset), F.sym("'p'"))) is True):
+            isp = _is_literal(p, nasset, "'p'")
+            if isp == "odd":
+                part_odd = (p, U)
+            elif not (same(U, uset) and isp is True):
                 part_ok, part_bad = False, (p, U)
         else:
             lv = find(H, lambda x: (_is_call(x, ("get_level_values",), ["self", "level"]) or {}).get("level") is not None)
@@ -1000,7 +1104,7 @@ def _r3_mkdofpv(ctx):
                 U = app(i1, "attr:index")[0] if good else None
             if good:
                 # the table is restricted to the requested set unless that set is 'p' (all DOF)
-                isp = p.decided(F.fn("cmp:Eq", F.sym(nasset), F.sym("'p'")))
+                isp = _is_literal(p, nasset, "'p'")
                 sel = app(U, "idx")
                 if sel and (same(sel[0], F.fn("attr:loc", uset)) or same(sel[0], uset)):
                     c = _is_call(sel[1], ("mksetpv",), ["uset", "major", "minor"])
@@ -1011,7 +1115,9 @@ def _r3_mkdofpv(ctx):
                     elif not g:
                         part_ok, part_bad = False, (p, U)
                 elif same(U, uset):
-                    if isp is not True:
+                    if isp == "odd":
+                        part_odd = (p, U)
+                    elif isp is not True:
                         part_ok, part_bad = False, (p, U)
                 else:
                     part_odd = (p, U)
@@ -1302,6 +1408,24 @@ def _cross_rows(v):
     return (X, R) if n_ok and m_ok else None
 
 
+def _cross_rows_wrong(v):
+    """text when v is recognisably a *different arrangement* of the id x component product: component-major row order, or the two columns
+    exchanged (rows of one id must be contiguous, id in column 0)"""
+    v = strip(v)
+    a = app(v, "comp")
+    if a and len(a) == 3:
+        g1, g2 = app(a[1], "gen"), app(a[2], "gen")
+        if g1 and g2 and len(g1) == 1 and len(g2) == 1 and same(a[0], F.fn("tuple", F.sym("@v1"), F.sym("@v0"))):
+            return "rows [inner, outer]: the loops / columns are exchanged"
+        return None
+    sc = split_call(v)
+    if sc is not None and sc[0] == "np.column_stack" and len(sc[1]) == 1 and not sc[2]:
+        cols = app(sc[1][0], "tuple")
+        if cols and len(cols) == 2 and _is_call(cols[0], ("tile",), ["A", "reps"]) and _is_call(cols[1], ("repeat",), ["a", "repeats"]):
+            return "np.tile in the id column, np.repeat in the component column: component-major rows"
+    return None
+
+
 def r4_expanddof(ctx):
     fn, paths = explore(ctx, N2P, "expanddof")
     dofp = fn.args.args[0].arg
@@ -1318,6 +1442,8 @@ def r4_expanddof(ctx):
             k = "digits"
         elif _cross_rows(v) is not None:
             k = "ids"
+        elif _cross_rows_wrong(v) is not None:
+            k = "ids-wrong"
         elif sym_of(v) == dofp:
             k = "as-is"
         else:
@@ -1358,14 +1484,19 @@ def r4_expanddof(ctx):
     ids = [t for t in kinds if t[1] == "ids"]
     good = bool(ids)
     det = None
+    for p, k, v in kinds:
+        if k == "ids-wrong":
+            good = False
+            det = det or {"regime": p.describe(), "returned": _show(v), "arrangement": _cross_rows_wrong(v)}
     seen = set()
     odd = None
     for p, k, v in ids:
         X, R = _cross_rows(v)
         ok = sym_of(strip(X)) == dofp
-        go = p.decided(F.sym(gop))
-        if _range_of(R) is None:
-            odd = odd or (p, R)         # the component list is not a constant range: nothing this rule can compare
+        go = _flag(p, gop)
+        if _range_of(R) is None or go == "odd":
+            odd = odd or (p, R)         # the component list is not a constant range / the flag is tested in an unknown form: nothing to compare
+            continue
         for g in (True, False):
             if go is not None and go != g:
                 continue
@@ -1374,10 +1505,11 @@ def r4_expanddof(ctx):
                 good = False
                 det = det or {"regime": p.describe(), "grids_only": g, "returned": _show(v)}
     if odd is not None:
-        ctx.error("expanddof: the component list of the id expansion is not recognised (rule knows range / np.arange with constant bounds)",
+        ctx.error("expanddof: the component list of the id expansion (or the test on the flag that selects it) is not recognised (rule knows range / "
+                  "np.arange with constant bounds; the flag itself, not, bool(), is / == True / False)",
                   odd[0].ret_node, {"regime": odd[0].describe(), "components": _show(odd[1])})
     else:
-        ctx.check(good and seen == {True, False}, "expanddof: 1-D input expands to components 1..6 (grids_only) or 0..6", fn, det)
+        ctx.check(good and seen == {True, False}, "expanddof: 1-D input expands every id, in request order, to the rows [id, c] for c = 1..6 (grids_only) or 0..6", fn, det)
 
 
 def r5_index2slice(ctx):
